@@ -32,17 +32,57 @@ def check_levels(ctx: Ctx):
     fv = view(m, fi)
     si = stmt_index(fv)
     site = refine.QUAL + ":levels"
-    want = {"vmin": "np.min(data_mask)", "vmax": "np.max(data_mask)"}
-    for nm, w in want.items():
+    from ..astutil import ifexp_cases
+
+    want = {"vmin": "min", "vmax": "max"}
+    region = None
+    for s in fv.statements():
+        if isinstance(s, ast.Assign) and isinstance(s.targets[0], ast.Name) and isinstance(s.value, ast.Subscript) and U(s.value.value) == "phase_field.data":
+            region = s.targets[0].id
+
+    def source_ok(src, at):
+        """the reduced values are those of the fitted region; only when that region is empty (a candidate that covers no
+        support point) may another part of the same image stand in.  Returns (ok, guarded against the empty region)"""
+        ex = fv.expand(src, at, stop=(region, "phase_field"))
+        cases = ifexp_cases(ex)
+        ok, guarded = True, len(cases) > 1
+        for conds, val in cases:
+            txt = U(val)
+            nonempty = any((t.replace(" ", "") in (f"{region}.size>0", f"0<{region}.size", f"{region}.size!=0", f"{region}.size", f"len({region})>0", f"len({region})!=0") and o)
+                           or (t.replace(" ", "") in (f"{region}.size==0", f"len({region})==0") and not o) for t, o in conds)
+            empty = any((t.replace(" ", "") in (f"{region}.size>0", f"0<{region}.size", f"{region}.size!=0", f"{region}.size", f"len({region})>0", f"len({region})!=0") and not o)
+                        or (t.replace(" ", "") in (f"{region}.size==0", f"len({region})==0") and o) for t, o in conds)
+            if txt == region and (nonempty or len(cases) == 1):
+                continue
+            if empty and txt in ("phase_field.data",):
+                continue
+            ok = False
+        return ok, guarded
+
+    guarded_all = True
+    for nm, red in want.items():
         ok, where = False, fi
         for s in fv.statements():
             if isinstance(s, ast.Assign) and isinstance(s.targets[0], ast.Name) and s.targets[0].id == nm:
                 where = s
                 g = si.guards(s)
                 okg = any(p and (cp := compare_parts(t)) and U(cp[0]) == nm and isinstance(cp[1], ast.Is) and isinstance(cp[2], ast.Constant) and cp[2].value is None for t, p in g)
-                ok = U(s.value) in (w, w.replace("np.", "").replace("(data_mask)", "") and f"data_mask.{w[3:6]}()") and okg
-        ctx.decide(ok, "LEVELS", f"{site}:{nm}", (fi, where), f"automatic {nm} = {w} (over the fitted region), only when `{nm} is None`",
-                   f"automatic level `{nm}` is not {w} guarded by `{nm} is None`")
+                v = s.value
+                src = None
+                if isinstance(v, ast.Call) and U(v.func) in (f"np.{red}", f"np.a{red}", f"numpy.{red}") and len(v.args) == 1 and not v.keywords:
+                    src = v.args[0]
+                elif isinstance(v, ast.Call) and isinstance(v.func, ast.Attribute) and v.func.attr == red and not v.args and not v.keywords:
+                    src = v.func.value
+                if src is not None and region is not None:
+                    oks, guarded = source_ok(src, s)
+                    guarded_all = guarded_all and guarded
+                    ok = oks and okg
+        ctx.decide(ok, "LEVELS", f"{site}:{nm}", (fi, where), f"automatic {nm} = {red} over the fitted region, only when `{nm} is None`",
+                   f"automatic level `{nm}` is not the {red} over the fitted region guarded by `{nm} is None`")
+    # a candidate smaller than a cell covers no support point: the region is empty and a bare min/max over it raises
+    ctx.decide(guarded_all, "LEVELS", site + ":empty-region", fi, "the automatic levels are defined for an empty fitted region as well (taken from the whole image then)",
+               "the automatic levels are np.min/np.max over the fitted region only: for a candidate that covers no support point (radius below half a cell between cell centres) the region is empty and "
+               "`refine_droplet(field, DiffuseDroplet([5.3, 5.3], 0.2), vmin=None, vmax=None)` raises ValueError instead of returning a droplet")
     # fitted region: the image values are taken where the dilated boolean image of the candidate is set
     # (resolved through temporaries: whatever the intermediate masks are called)
     okreg, where = False, fi
@@ -61,7 +101,7 @@ def check_levels(ctx: Ctx):
             it = kwarg(idx, "iterations")
             okreg = okreg and it is not None and U(it).replace(" ", "") in ("1+int(2*droplet.interface_width)", "int(2*droplet.interface_width)+1")
         # and the automatic levels are taken from exactly these values
-        lv = [s for s in fv.statements() if isinstance(s, ast.Assign) and U(s.targets[0]) in ("vmin", "vmax") and U(dm.targets[0]) in U(s.value)]
+        lv = [s for s in fv.statements() if isinstance(s, ast.Assign) and U(s.targets[0]) in ("vmin", "vmax") and U(dm.targets[0]) in U(fv.expand(s.value, s, stop=(U(dm.targets[0]), "phase_field")))]
         okreg = okreg and len(lv) >= 2
     ctx.decide(okreg, "LEVELS", site + ":region", (fi, where), "fit region = boolean image of the candidate dilated by 1 + int(2·width) cells; image values taken there",
                "the fit region is not the dilated boolean image of the candidate (1 + int(2·width) iterations) applied to phase_field.data")
@@ -179,7 +219,7 @@ def check(ctx: Ctx):
     ctx.expect("MODEL", 2)
     ctx.expect("AFFINE", 2)
     ctx.expect("FEASIBLE", 2)
-    ctx.expect("LEVELS", 4)
+    ctx.expect("LEVELS", 5)
     ctx.expect("NONETEST", 1)
     ctx.expect("WRAP", 1)
     ctx.expect("EFFECT", 3)
